@@ -18,7 +18,7 @@ CLAIMED = {
      text="For each sampled (workflow, schedule) every distinct crash state is recovered from (cleanup + re-run) and compared with the uninterrupted reference result; inode/mtime of already-final files and the re-run's execution trace are checked. One known finding (F-C03-1) is matched by a structural signature and reported as KNOWN-FINDING; two defects (F-C03-2, F-C03-3) were repaired.",
      note="Crash model as C01. Cleanup = removing entries named _scipipe_tmp* and FIFOs, as the statement says.", ref="9 C03"),
  "C04": dict(level="exploration", tech=TECH + "seeded search over workflows x schedules x map orders x durations; oracle = independent reference evaluation (task multiset, file contents, per-edge delivery)",
-     text="Every sampled (workflow, configuration, schedule) is executed completely on the simulator and compared with an independent reference evaluation: multiset of executed tasks, bytes of every output, per-edge delivery counts. Sampling, not proof.",
+     text="Every sampled (workflow, configuration, schedule) is executed completely on the simulator and compared with an independent reference evaluation: multiset of executed tasks, bytes of every output, per-edge delivery counts. One case in eight instead runs the workflow with scipipe's default output names twice, on two fresh directories under two schedules, and compares what was produced (no reference needed). Sampling, not proof. One known finding (F-C04-1: with default names a tagger's tag enters a sibling consumer's file name or not, depending on timing) is matched structurally and reported as KNOWN-FINDING.",
      note="Trusted: the simulator's channel/select/mutex semantics (re-implemented to the Go spec), the in-memory fs, the mini shell, the reference model. Fan-in only into single-port processes; zipped ports have equal lengths; bufsize>=1.", ref="9 C04"),
  "C05": dict(level="exploration", tech=TECH + "deadlock = no runnable goroutine and no timer (exact, no time-outs); early return checked on the snapshot taken by the workflow program right after Run returns",
      text="Liveness is decided exactly per sampled schedule (the scheduler knows the runnable set), safety on the fs/command state at the return instant. Sampling over graphs, buffer/slot settings and schedules.",
@@ -51,7 +51,7 @@ CLAIMED = {
      text="Schedule- and map-order-sensitive behaviour of the components is explored per sampled schedule; their input-space claims (all file lengths x split sizes, all glob patterns) are only sampled.",
      note="Ports of a combinator that share one upstream are limited to stream length <= bufsize, as the statement says. os/exec pipes are modelled (child goroutine, 64 KiB pipe, Wait closes the read end).", ref="9 C19"),
  "C12": dict(level="exploration", tech=TECH + "race-instrumented build (rewriter -race: map operations, struct fields through pointers, json object graphs) + in-simulator vector-clock happens-before checker with edges only from the simulated go/channel/close/mutex/WaitGroup operations (Go memory model)",
-     text="Each simulated schedule is a legal execution and the edge set equals the memory model's, so every reported pair is a race Go's detector would report on that execution; untracked locations (captured locals, slice elements) can only be missed. One known finding (F-C12-1, unsynchronised Tags map of shared audit records) is matched by its write site and reported as KNOWN-FINDING; one race (F-C12-2) was repaired.",
+     text="Each simulated schedule is a legal execution and the edge set equals the memory model's, so every reported pair is a race Go's detector would report on that execution; untracked locations (slice elements, locals shared through explicit pointers) can only be missed; locals captured by function literals and loop variables are tracked. One known finding (F-C12-1, unsynchronised Tags map of shared audit records) is matched by its write site and reported as KNOWN-FINDING; one race (F-C12-2) was repaired.",
      note="Go's own race detector cannot be used under the cooperative scheduler (its hand-offs would order everything). Logging at error level. The behavioural 'half-done' clause is covered through the race reports only.", ref="9 C12"),
  "C20": dict(level="exploration", tech=TECH + "audit trees produced by simulated runs with clock granularity 1ns/1ms/15ms and resumed histories (RunTo+Run with a time-zone change, kill at a crash state + cleanup + re-run); converted by the REAL scipipe CLI built from /repo; generated Bash script executed by the real bash with a native twin of the workload command",
      text="The converter is a pure function and runs natively; simulation supplies the clock- and history-dependent inputs (shared start times, zero-time sources, shared ancestors, records loaded from disk); one case in six converts a directly generated audit tree instead (listings only). Listing completeness/uniqueness/order and byte-identical reproduction are checked per case. Two defects (F-C20-1, F-C20-2) were repaired.",
